@@ -49,7 +49,7 @@ def tasks(tier, seed):
 
 def required_marks(tier):
     return ['pure_result_checked', 'followup_mutation_checked', 'hamiltonian_untouched', 'qr_sorted_path', 'qr_unsorted_path',
-            'other_graph_untouched', 'scalars_checked', 'singular_values_untouched']
+            'other_graph_untouched', 'scalars_checked', 'singular_values_untouched', 'add_disjoint_ids']
 
 
 def shares(res_arrays, op_arrays):
@@ -220,7 +220,14 @@ def path_graph(eng, acc, task):
         widths = [(), (1,)][eng.choose(2, 'w')]
         g, _ = gen_graph(eng, 'g', widths, 'plain' if widths else 'par')
         qt = (g.nodes[g.nid_terminal[0]].qnum, g.nodes[g.nid_terminal[1]].qnum)
-        h, _ = gen_graph(eng, 'h', widths, 'plain' if widths else 'par', qterm=qt)
+        # id schemes of the other graph: fully colliding, node ids disjoint, edge ids disjoint, everything disjoint
+        scheme = eng.choose(4, 'ids')
+        nn2 = 2 + sum(widths)
+        nids2 = list(range(nn2)) if scheme in (0, 2) else [100 + k for k in range(nn2)]
+        eids2 = None if scheme in (0, 1) else (lambda ne: [200 + k for k in range(ne)])
+        if scheme == 3:
+            eng.mark('add_disjoint_ids')
+        h, _ = gen_graph(eng, 'h', widths, 'plain' if widths else 'par', nids=nids2, eids=eids2, qterm=qt)
         snap = graph_snapshot(h)
         inputs.update(op='add', graph=graph_to_json(g), other=graph_to_json(h))
         try:
